@@ -27,11 +27,57 @@ PROPS = {
         ],
         explanation="Decision-table proof over regenerated tables: select typeTable inferTable = documented rule for all key sets and all type values; extra keys irrelevant. Correspondence: full 2^10 x 18 table through the real stepFromMap.",
     ),
+    "C11": dict(
+        level="proof", gen=False, corr_name="validatePermutation (driver mode c11)",
+        trusted_base=COMMON_TB + ["Go map iteration modelled as an entry list in arbitrary order with distinct keys (theorem C11_order_independent covers every order)"],
+        explanation="validate = matrix specification for all matrices/permutations and all iteration orders (Lean), tied by exhaustive small-scope + random correspondence through Matrix.validatePermutation and InterpolateMatrixPermutation.",
+    ),
+    "C12": dict(
+        level="proof", gen=True, corr_name="matrixInterpolator.Transform (driver mode c12)",
+        trusted_base=COMMON_TB + ["Go regexp (RE2) semantics for the single literal read from interpolate_matrix.go are modelled by a hand-written deterministic matcher; the literal itself is regenerated (Gen/MatrixRE) and checked by C12_regexp_literal",
+                                 "step-level scoping (which fields are transformed) is proved in the interpolation model shared with C04 and tied by the taint run"],
+        explanation="Single-pass token replacement theorems over the matcher model + scoping; correspondence on constructed token strings and near-miss look-alikes.",
+    ),
+    "C17": dict(
+        level="proof", gen=False, corr_name="Plugin.FullSource (driver mode c17)",
+        trusted_base=COMMON_TB + ["net/url.Parse (scheme detection, fragment cut, first-segment colon rule) and path.Join/Clean are modelled on the documented domain, not verified; percent-escapes and '?' are outside the model (model answers outside-model)"],
+        explanation="Documented expansions, unchanged classes and idempotence proved on the model for the whole documented domain; correspondence on constructed sources of every documented form plus free-form strings.",
+    ),
+    "C18": dict(
+        level="proof", gen=True, corr_name="jwkutil.Validate / LoadKey (driver mode c18)",
+        trusted_base=COMMON_TB + ["jwx: key parsing, key.Validate(), key.Algorithm() typing, key-set lookup are inputs to the model (observed, not modelled)",
+                                 "C18_crypto_partial: that generated keys validate and that a signature verifies with its public half and no other key involves real key generation and JWS; exercised by the harness (6x6 sign/verify matrix), not proved"],
+        explanation="Decision-logic proof over tables regenerated from jwkutil/validate.go; exhaustive correspondence over key type x every registered algorithm with real keys; key-set selection rule proved and exercised through temp files.",
+    ),
 }
 
 NOT_APPLICABLE = {}
 
 MANIFEST_TEXT = {
+    "C11": dict(
+        text="Kernel-checked proof (Lean 4) that a statement-for-statement model of Matrix.validatePermutation accepts exactly when the matrix specification does (names every dimension once; a setup combination or some adjustment's tuple; no adjustment with that tuple marked skip; malformed adjustments reject), for all matrices and permutations and independently of every Go map iteration order; ShouldSkip table; rejected and empty permutations leave the step unmodified. Tied to the code by exhaustive small-scope and random correspondence through the real validatePermutation/InterpolateMatrixPermutation, and the specification written directly in Go.",
+        design_ref="DESIGN.md §6 C11",
+        note="Trusted: Lean kernel; the differential correspondence; Go maps modelled as key-distinct entry lists.",
+        technique="Lean 4 proof of decision procedure = specification (iff), order-independence by permutation lemmas + exhaustive small-scope correspondence",
+    ),
+    "C12": dict(
+        text="Kernel-checked proofs (Lean 4) about a deterministic matcher for the token regexp read from the source on every run: well-formed tokens are matched whole with the right dimension; strings without '{{' are unchanged; for every alternation of brace-free text and tokens the output is the text with each token replaced once, verbatim (values never rescanned); unknown dimensions always fail; on arbitrary input every replaced region is a genuine token. Step-level scoping (command, label, plugins, env values, unknown fields transformed; env names, key, matrix, signature untouched) is proved on the interpolation model shared with C04. Tied by correspondence on constructed and look-alike strings and by the regenerated regexp literal.",
+        design_ref="DESIGN.md §6 C12",
+        note="Trusted: Lean kernel; RE2 semantics of the one literal (hand matcher, differentially checked); the correspondence.",
+        technique="Lean 4 proofs over a regexp-specific matcher model + regenerated literal obligation + string correspondence",
+    ),
+    "C17": dict(
+        text="Kernel-checked proofs (Lean 4) on a model of Plugin.FullSource including the relevant parts of url.Parse and path.Clean: bare names and org/name expand to the documented github.com forms (with optional ref), paths, scheme URLs, scp-style and 3+-segment sources are left as written, and canonicalisation is idempotent and closed on the documented domain. Tied to the code by correspondence on sources of every documented form and free-form strings, with idempotence and expansions also checked directly on the implementation.",
+        design_ref="DESIGN.md §6 C17",
+        note="Trusted: Lean kernel; the model of net/url and path on the documented domain (differentially checked, not verified); the correspondence.",
+        technique="Lean 4 proofs (string-level model, idempotence on a decidable domain) + correspondence",
+    ),
+    "C18": dict(
+        text="Kernel-checked proof (Lean 4) that key validation, as a sequence of checks over tables regenerated from jwkutil/validate.go, accepts exactly structurally valid keys that declare a signature algorithm forming one of RSA+PS512, EC+ES512, OKP+EdDSA - for all key types and algorithm names - and that key-set loading returns the first key with the requested id (or the only key), validating after selection. Tied by exhaustive correspondence over real keys of every type x every algorithm jwx registers, and LoadKey over small key sets. The cryptographic part (generated keys validate; signatures verify only with their own public half) is exercised, not proved.",
+        design_ref="DESIGN.md §6 C18",
+        note="Trusted: Lean kernel; table translator; jwx observations as model inputs; real cryptography (partial: exercised by a 6x6 sign/verify matrix only).",
+        technique="Lean 4 decision-table proof over source-regenerated tables + exhaustive (key type x algorithm) correspondence",
+    ),
     "C15": dict(
         text="Kernel-checked proof (Lean 4) that the step-kind tables regenerated from steps.go/step_scalar.go on every run, interpreted with first-match semantics, equal the documented rule for every key set and every type value (string or not), that failures carry the documented sentinels and never another known kind, and that keys outside the ten kind keys never change the decision. Tied to the code by the go/ast table translator and by enumerating the complete key-subset x type table (plus adversarial extra keys) through the real stepFromMap/unmarshalStep against the model driver and the rule written directly in Go.",
         design_ref="DESIGN.md §6 C15",
